@@ -365,7 +365,7 @@ let do_dir t =
 let next_hstep t : hstep =
   match next t with
   | "b" -> HBarrier (nat_of_int (next_int t))
-  | "p" -> HPanic | "w" | "W" -> HWrite | "hs" -> HHandshake
+  | "p" | "pw" -> HPanic | "w" | "W" -> HWrite | "hs" -> HHandshake
   | k -> failwith ("bad hstep " ^ k)
 let next_item t : item =
   match next t with
@@ -409,7 +409,7 @@ let cfg_of_string (s : string) : config =
          | "stop_interrupts" -> { c with stop_interrupts = b } | "ready_on_error" -> { c with ready_on_error = b }
          | "close_on_cancel" -> { c with close_on_cancel = b } | "unbind" -> { c with has_unbind_route = b }
          | "onclose" -> { c with has_onclose = b } | "accept_retry" -> { c with accept_retry = b } | "untrack_late" -> { c with untrack_late = b }
-         | "addr" | "tls" | "readtimeout" | "race" | "dflt" | "stopdelay" | "nopark" -> c     (* worker options, not model parameters *)
+         | "addr" | "tls" | "readtimeout" | "race" | "dflt" | "stopdelay" | "nopark" | "loglevel" -> c     (* worker options, not model parameters *)
          | _ -> failwith ("bad cfg key " ^ k))
       | _ -> failwith "bad cfg kv") base (List.tl parts)
 let kind_char = function KNormal -> "n" | KStartTLS -> "t" | KUnbind -> "u"
